@@ -693,7 +693,7 @@ def funnel(ctx) -> None:
     for dev in concrete_devices(ctx):
         for name in sorted({m for k in ctx.prog.mro(dev) if hasattr(k, "methods") for m in k.methods}):
             f = ctx.prog.find_method(dev, name)
-            if f is None or name.startswith("__"):
+            if f is None or name.startswith("__") or f.qualname in ctx.prog.inlined_helpers:
                 continue
             env = ctx.prog.local_types(f, dev)
             lab_params = [p for p, c in env.items() if c is lab or lab in ctx.prog.mro(c)]
